@@ -511,7 +511,7 @@ func runC07(ctx *Ctx) error {
 
 func runC08(ctx *Ctx) error {
 	r, res := ctx.Rng, ctx.Res
-	res.Rule = "streams: random bytes; every truncation and every single-bit flip of small valid streams; header edits (negative, zero, too small, too large sizes, damaged CRC); splices of two valid streams; valid streams with appended bytes. Each is read with a random buffer-size sequence under a watchdog and a read-count bound. Compared with the model: constructor result, every Read result and status, Close. Oracles: terminates, no panic, never more bytes than the declared size, and Close nil only if the independent canonical codec decodes the consumed stream to exactly the bytes read (CRC and size included). Non-trivial: stream that is not a valid library stream; distinct by stream."
+	res.Rule = "streams: random bytes; every truncation and every single-bit flip of small valid streams; header edits (negative, zero, too small, too large sizes, damaged CRC); splices of two valid streams; valid streams with appended bytes; valid streams closed after ONE Read of every length below the size (the cut inside a match). Each is read with a random buffer-size sequence under a watchdog and a read-count bound. Compared with the model: constructor result, every Read result and status, Close. Oracles: terminates, no panic, never more bytes than the declared size, and Close nil only if the independent canonical codec decodes the consumed stream to exactly the bytes read (CRC and size included). Non-trivial: stream that is not a valid library stream; distinct by stream."
 	var streams [][]byte
 	var fam []string
 	var crcs []bool
@@ -589,8 +589,57 @@ func runC08(ctx *Ctx) error {
 		}
 		add("appended", append(append([]byte(nil), a...), r.Bytes(1+r.Intn(8))...), validCrc[ai])
 	}
+	// Close after a partial read: the caller stops after ONE Read of n bytes, for every n below
+	// the size, on inputs whose second half is a match (so that the cut falls inside a match and
+	// part of it stays in the reader's buffer), and closes: never nil
+	type early struct {
+		s   []byte
+		crc bool
+		n   int
+	}
+	var earlies []early
+	{
+		ls, ts := []int{7, 20}, []int{2, 10}
+		if ctx.Thorough() {
+			ls, ts = []int{3, 7, 20, 45, 60}, []int{1, 2, 5, 10, 30}
+		}
+		for _, l := range ls {
+			for _, t := range ts {
+				p := make([]byte, l)
+				for i := range p {
+					p[i] = byte('A' + i)
+				}
+				x := append(append([]byte(nil), p...), p...)
+				for i := 0; i < t; i++ {
+					x = append(x, byte('0'+i%10))
+				}
+				for _, crc := range []bool{true, false} {
+					s, _, _ := lzCompress(x, crc, nil)
+					for n := 1; n < len(x); n++ {
+						earlies = append(earlies, early{s, crc, n})
+					}
+				}
+			}
+		}
+	}
 	var lines, impl []string
 	var cases []interface{}
+	for _, e := range earlies {
+		rr := lzRead([][]byte{e.s}, e.crc, []int{e.n}, 1)
+		cs := map[string]interface{}{"family": "early-close", "stream_hex": hexs(e.s), "crc": e.crc, "read_sizes": []int{e.n}, "reads_before_close": 1}
+		res.Count("early-close")
+		res.Eval(fmt.Sprint("early", e.crc, e.n)+string(e.s), true)
+		if rr.Hang || rr.Panic != nil {
+			res.Fail(Failure{Kind: "oracle", Site: "reader-hang-or-panic", Case: cs, Detail: fmt.Sprint("hang=", rr.Hang, " panic=", rr.Panic)})
+			continue
+		}
+		if rr.Close == "nil" {
+			res.Fail(Failure{Kind: "oracle", Site: "close-nil-after-partial-read", Case: cs, Detail: fmt.Sprintf("Close returned nil after %d bytes of a longer stream", len(rr.Out))})
+		}
+		lines = append(lines, lzReadLine([][]byte{e.s}, e.crc, []int{e.n}, rr.Reads))
+		impl = append(impl, rr.Trace)
+		cases = append(cases, cs)
+	}
 	type vd struct {
 		idx int
 		crc bool
